@@ -25,12 +25,17 @@ func init() {
 type storeModel struct {
 	S, T  int
 	ctime time.Time
+	// ctimeLo..ctimeHi bracket the operation that renews the creation time (create, reset): the store may read
+	// the clock anywhere inside it. The first look pins the model to the value the store reports; from then on
+	// (refresh, reopen, further operations) it must not move.
+	ctimeLo, ctimeHi time.Time
+	ctimePinned      bool
 	msgs  map[int][]byte
 	maxN  int
 }
 
 func newStoreModel() *storeModel {
-	return &storeModel{S: 1, T: 1, ctime: time.Now(), msgs: map[int][]byte{}}
+	return &storeModel{S: 1, T: 1, ctime: time.Now(), ctimeLo: time.Now(), msgs: map[int][]byte{}}
 }
 
 func (m *storeModel) rangeOf(b, e int) [][]byte {
@@ -92,6 +97,16 @@ func (u *storeUnderTest) check(env *Env, after string) {
 	if got := u.st.NextTargetMsgSeqNum(); got != u.m.T {
 		env.Violate("C16/"+u.kind+"/target-counter", "after %s: NextTargetMsgSeqNum %d, model %d", after, got, u.m.T)
 	}
+	if !u.m.ctimePinned {
+		if u.m.ctimeHi.IsZero() {
+			u.m.ctimeHi = time.Now()
+		}
+		got := u.st.CreationTime()
+		if got.Before(u.m.ctimeLo) || got.After(u.m.ctimeHi) {
+			env.Violate("C16/"+u.kind+"/creation-time", "after %s: CreationTime %v is not an instant of the operation that renewed it (%v .. %v)", after, got, u.m.ctimeLo, u.m.ctimeHi)
+		}
+		u.m.ctime, u.m.ctimePinned = got, true
+	}
 	if got := u.st.CreationTime(); !sameTime(got, u.m.ctime) {
 		env.Violate("C16/"+u.kind+"/creation-time", "after %s: CreationTime %v, model %v", after, got, u.m.ctime)
 	}
@@ -112,6 +127,9 @@ func runC16(env *Env, tier string) {
 		}
 		env.OnCleanup(func() { keeper.Close(); SQLFaults.Reset() })
 		SQLFaults.Reset()
+		// every statement takes simulated time: an instant read before a statement or commit is not the
+		// instant read after it (creation time written to the database vs. kept in the cache)
+		SQLFaults.Latency.Store(int64(150 * time.Microsecond))
 	}
 	twins := nsess > 1 && ch.Chance("twins", 1, 3)
 	twinKey := []string{config.SenderCompID, config.SenderSubID, config.SenderLocationID, config.TargetCompID, config.TargetSubID,
@@ -347,10 +365,12 @@ func runC16(env *Env, tier string) {
 				break
 			}
 			label = "Reset"
+			before := time.Now()
 			if err := u.st.Reset(); err != nil {
 				env.Violate("C16/"+kind+"/error", "%s: %v", label, err)
 			}
 			m.S, m.T, m.msgs, m.maxN, m.ctime = 1, 1, map[int][]byte{}, 0, time.Now()
+			m.ctimeLo, m.ctimeHi, m.ctimePinned = before, time.Now(), false
 			structural++
 			env.Stat("probe_reset")
 		case 10:
